@@ -59,3 +59,18 @@ Example C11_refines_C_witness :
   c_defined a1 = true /\ eager_safe a1 = true /\ numeric_store e0 a1 = true /\ snd (eval_top_i e0 a1) = Ok 7%Z /\
   c_defined a2 = true /\ eager_safe a2 = true /\ numeric_store e0 a2 = true /\ snd (eval_top_i e0 a2) = Ok 6%Z.
 Proof. vm_compute. repeat split. Qed.
+
+(** Open finding F11, as a theorem about the faithful model: without the hypothesis [eager_safe]
+    the refinement is false.  The expression 0 && (x = 1) is C-defined and the store is numeric;
+    C does not evaluate the right operand, the rule-action evaluator does: both give 0, but x is
+    assigned.  The witness is replayed on the implementation on every run (Eval("0 && (x = 1)")
+    is in the corpus and reported as the known finding). *)
+Theorem C11_short_circuit_refuted_F11 :
+  exists e a, c_defined a = true /\ numeric_store e a = true /\ eager_safe a = false /\
+    snd (eval_top_i e a) = snd (eval_c e a) /\
+    abs (fst (eval_top_i e a)) [120] <> abs (fst (eval_c e a)) [120].
+Proof.
+  exists (mkEnv [[115; 104]] 0 0%Z []), (ELAnd (ENum [48]) (EParen (EAssign None (EVar [120]) (ENum [49])))).
+  vm_compute. repeat split; discriminate.
+Qed.
+Print Assumptions C11_short_circuit_refuted_F11.
